@@ -29,7 +29,7 @@ REQUIRED_OBS = ["expiry_during_connected_notification", "full_buffer_flushed_aft
 BUDGET = {"quick": 100, "thorough": 1500}
 
 CAP = 10
-POLS = ["short", "conn", "idem", "long"]
+POLS = ["short", "conn", "idem", "long", "zero", "neg"]
 
 
 def gen_script(rnd):
@@ -71,6 +71,15 @@ def directed():
         ops += [["send", S.KINDS[i % 3], "idem", "inline"] for i in range(j + 1)]
         ops += [["net_default", "accept", 0.0], ["adv", 2.0], ["q"]]
         out.append(ops)
+    # messages with a lifetime of zero (or less): expired when accepted - ten of them hold no
+    # room, none of them is ever transmitted
+    for pol in ("zero", "neg"):
+        out.append([["net_default", "refuse", 0.0]]
+                   + [["send", S.KINDS[i % 3], pol, "inline"] for i in range(10)]
+                   + [["send", S.KINDS[i % 3], "idem", "inline"] for i in range(10)]
+                   + [["send", "zone_ctrl", "long", "inline"],
+                      ["net_default", "accept", 0.0], ["adv", 2.5], ["q"],
+                      ["send", "ac_ctrl", pol, "inline"], ["q"]])
     # not open
     out.append([["close"], ["send", "zone_ctrl", "idem", "inline"],
                 ["send", "ac_ctrl", "long", "hdr"], ["open"], ["adv", 1.0],
@@ -272,7 +281,11 @@ def check(gen, run):
                 closed_serials.add(r["serial"])
             elif connected is not None:
                 want = "ok"
-                expect_wire[-1][1].append(r["serial"])
+                if r["policy"][1] > 0:
+                    expect_wire[-1][1].append(r["serial"])
+                else:
+                    # expired the moment it was accepted: never transmitted
+                    obs["expired_when_accepted"] = obs.get("expired_when_accepted", 0) + 1
             else:
                 before = len(queue)
                 queue = [(s, e) for s, e in queue if t < e]
